@@ -36,3 +36,19 @@ Example C03_nonvacuous :
   map t_next (fst (spec_run {| p_file := [97]; p_off := 120 |} (us1 ++ us2))) =
     [{| p_file := [97]; p_off := 4294967295 |}; {| p_file := [98]; p_off := 150 |}].
 Proof. split; vm_compute; reflexivity. Qed.
+
+(* ---------------------------------------------------------------------------------------------------------------
+   Source pins.  The model functions used above are a hand-written reading of these Go functions (they have closures,
+   channels, interfaces or maps, which the translator gotrans does not accept).  gosync regenerates their normalised
+   text (logging calls and comments removed) into gen/Source.v on every run; it must equal the committed snapshot
+   Spec/SourceSnapshot.v the models were written and validated against.  When one of them is edited the Example
+   naming it fails, the check runs the thorough harness in search of a failing input, and reports the property as no
+   longer shown to hold (with the input, or no-failing-input-found). *)
+From GB Require Proofs.SourcePins Spec.SourceSnapshot.
+From GBGen Require Source.
+Example C03_pin_parseEvents : Source.src_parseEvents = SourceSnapshot.src_parseEvents.
+Proof. exact SourcePins.pin_parseEvents. Qed.
+Example C03_pin_Stream : Source.src_Stream = SourceSnapshot.src_Stream.
+Proof. exact SourcePins.pin_Stream. Qed.
+Example C03_pin_startDumpFromBinlogPosition : Source.src_startDumpFromBinlogPosition = SourceSnapshot.src_startDumpFromBinlogPosition.
+Proof. exact SourcePins.pin_startDumpFromBinlogPosition. Qed.
